@@ -26,6 +26,10 @@ CLAIMED = {
 }
 
 CLAIMED.update({
+    "C02": ("abort-site enumeration with provenance-matched discharge table + fee-split provenance",
+            "Every operation in the constant-product arm of compute_swap that can abort matches a discharge pattern (operation + operand "
+            "provenance + arithmetic reason); three fees are computed from one gross amount on the three pool_fees fields and all subtracted; "
+            "response fields carry the like-named values. Exact price, there-and-back and range claims are numerical: not decided.", "§4 C01-C05"),
     "C06": ("guard dominance + push-order dominance + ordering-domain walks + fee-set agreement between sibling computations",
             "Callback self-guard; flash_loan message order loan->borrower->AfterTrade(last) with old_balance from this call's query; success "
             "reachable iff required <= balance with required = old + three CONFIG fees of the loan; counter inc/dec pairing; no mint "
